@@ -99,6 +99,9 @@ def build_parsed(params):
                 tsv.append("%s\tnone\tnone\tchr9\n" % nm)
         e.files["h.tsv"] = stubs.MFile("text", tsv, None)
         e.files["in.gaf"] = stubs.MFile("bgzf" if params["gz"] else "text", PARSED_LINES, None)
+        # an earlier call in the same process with another haplotag file must not influence this one
+        e.files["h0.tsv"] = stubs.MFile("text", ["p0\tH2\t5\tchrX\n", "p1\tH2\t5\tchrX\n", "p2\tH2\t5\tchrX\n"], None)
+        P.add_phase_info("in.gaf", "h0.tsv", "o0.gaf")
         P.add_phase_info("in.gaf", "h.tsv", "o.gaf")
         out = [str(l).rstrip("\n") for l in e.files["o.gaf"].lines]
         if len(out) != 3:
